@@ -12,7 +12,9 @@ RULE = ('(a) end-to-end: seeded random reference sets (1-3 maps, 40-250 labels, 
         'sample); every record of every file written, every row handed to the writer and every candidate of every '
         'AlignmentResultRowMessage is judged by the matching oracle on independently parsed CMAP text. '
         '(b) direct drive of the real Aligner.align with synthetic seed lists (ladders / random / near-duplicate peaks) '
-        'on stretched, indel-containing and repetitive label data, both strands. A case (record, candidate or '
+        'on stretched, indel-containing and repetitive label data, both strands; (c) direct drive of the first/second-pass join '
+        '(AlignmentResults.resolve) with the row of a whole molecule and the row of one of its fragments seeded at loci shifted by '
+        'label spacings, repeats or random offsets - every joined row is judged. A case (record, candidate or '
         'direct call) is non-trivial when it has >= 2 non-empty segments, or is joined, second-pass or reverse-strand; '
         'distinct = distinct content hash of (pairs, strand, ids, file).')
 ASSUMPTIONS = ['CMAP text written by the harness is the ground truth for label counts',
@@ -21,8 +23,9 @@ ASSUMPTIONS = ['CMAP text written by the harness is the ground truth for label c
                'violations whose resolver trace matches a listed known-finding mechanism are reported as KNOWN-FINDING']
 MINIMUMS = {'records': {'quick': 1000, 'thorough': 20000}, 'candidates': {'quick': 2000, 'thorough': 40000},
             'direct-calls': {'quick': 5000, 'thorough': 100000}, 'multi-segment-rows': {'quick': 50, 'thorough': 500},
-            'joined-records': {'quick': 10, 'thorough': 100}, 'second-pass-records': {'quick': 50, 'thorough': 500}}
-CLASSES = ['clean', 'noisy', 'noisy', 'chimeric', 'translocation', 'indel', 'partial']
+            'joined-records': {'quick': 10, 'thorough': 100}, 'second-pass-records': {'quick': 50, 'thorough': 500},
+            'join-attempts': {'quick': 3000, 'thorough': 50000}, 'joined-rows-from-direct-drive': {'quick': 500, 'thorough': 8000}}
+CLASSES = ['clean', 'noisy', 'noisy', 'chimeric', 'translocation', 'indel', 'partial', 'deletion-between-repeats']
 
 
 def plan(tier, seed):
@@ -39,7 +42,9 @@ def run_shard(spec):
     if spec['kind'] == 'e2e':
         for i in range(spec['cases']):
             rng = rng_for('C01e2e', spec['seed'], spec['shard'], i)
-            if rng.random() < 0.15:
+            if rng.random() < 0.1:
+                case = gen.translocation_case(rng)
+            elif rng.random() < 0.15:
                 case = gen.long_molecule_case(rng, nq=rng.randint(6, 12))
                 if rng.random() < 0.4:
                     case['params'].update(d=rng.choice([800, 3000]), ms=rng.choice([500, 1000, 2000]), sj=rng.choice([0.0, 0.5, 1.0]))
@@ -54,6 +59,7 @@ def run_shard(spec):
             case = gen.direct_align_case(rng)
             case['gen'] = [spec['seed'], spec['shard'], i]
             judge_direct(case, sh)
+            judge_join(join_case(rng_for('C01join', spec['seed'], spec['shard'], i)), sh)
     if hooks.MONITOR_ERRORS:
         sh.inconclusive.append('monitor errors: %s' % hooks.MONITOR_ERRORS[:3])
     return sh
@@ -228,9 +234,64 @@ def judge_direct(case, sh):
     return out
 
 
+def join_case(rng):
+    """Hostile direct drive of the first/second-pass join: a whole-molecule row and the row of a tail/head fragment of
+    the same molecule (label-number offset as getUnalignedFragments gives it) seeded at a shifted locus."""
+    c = gen.direct_align_case(rng)
+    n = len(c['query'])
+    k = rng.randint(2, max(2, n - 4))
+    c['kind'] = 'join'
+    c['shift'] = 0
+    c['frag_from'] = k if rng.random() < 0.7 else 0
+    c['frag_to'] = n if c['frag_from'] else rng.randint(4, n)
+    base = c['peaks'][0][0]
+    spac = [b - a for a, b in zip(c['ref'], c['ref'][1:])]
+    deltas = [0, rng.choice(spac), -rng.choice(spac), rng.choice(spac) + rng.choice(spac), rng.randint(-60000, 60000), rng.randint(-3000, 3000)]
+    c['peaks2'] = [[base + rng.choice(deltas), round(rng.uniform(10, 50), 3)] for _ in range(rng.randint(1, 3))]
+    c['maxdiff'] = rng.choice([10 ** 9, 100000, 20000])
+    return c
+
+
+def judge_join(case, sh):
+    from src.alignment.alignment_results import AlignmentResults
+    from src.correlation.optical_map import OpticalMap
+    from src.correlation.peak import Peak
+    sh.evaluations += 1
+    sh.count('join-drives')
+    al = direct.make_aligner(case['params'])
+    R = OpticalMap(1, case['ref_len'], list(case['ref']))
+    Q = OpticalMap(7, case['query_len'], list(case['query']))
+    F = OpticalMap(7, case['query_len'], list(case['query'][case['frag_from']:case['frag_to']]), case['frag_from'])
+    try:
+        row1 = al.align(R, Q, [Peak(p, h) for p, h in case['peaks']], case['rev'])
+        row2 = al.align(R, F, [Peak(p, h) for p, h in case['peaks2']], case['rev']).setAlignedRest(True)
+        if not row1.alignedPairs or not row2.alignedPairs:
+            sh.count('join-drives-without-two-rows')
+            return
+        joined, separate = AlignmentResults.resolve([row1, row2], case['maxdiff'])
+    except Exception as ex:
+        info = pipeline.error_info(ex)
+        sh.violation('join-raises:%s@%s' % (info['type'], info['frame']), 'joining two rows of one query raised %s: %s' % (info['type'], info['msg']), case)
+        return
+    sh.count('join-attempts')
+    ori = '-' if case['rev'] else '+'
+    for row in joined:
+        sh.count('joined-rows-from-direct-drive')
+        pairs = oracles.row_pairs(row)
+        sh.nt(['join', ori, pairs])
+        errs = oracles.matching(pairs, ori, len(case['ref']), len(case['query']))
+        if errs:
+            sh.violation('joined-row:' + errs[0][0], 'AlignmentResults.resolve joined two rows of one query into an invalid matching: %s | first %s... second %s... joined %s...' % (
+                '; '.join(t for _, t in errs), oracles.row_pairs(row1)[-6:], oracles.row_pairs(row2)[:6], pairs[:40]), case)
+    if not joined:
+        sh.count('join-attempts-rejected')
+
+
 def replay(case):
     sh = Shard()
-    if case.get('kind') == 'direct':
+    if case.get('kind') == 'join':
+        judge_join(case, sh)
+    elif case.get('kind') == 'direct':
         judge_direct(case, sh)
     else:
         judge_e2e(case, case['workdir'], sh, pool=False)
